@@ -17,8 +17,8 @@ RULE = ("texts: (1) random strings of 1-40 tokens over the Mech token alphabet (
         ":=, ~, |, quotes, #, backticks, newlines CR/LF/CRLF, box-drawing, emoji incl. ZWJ sequences, combining marks, control characters, "
         "mika tokens); (2) every statement-level source of /repo/tests/interpreter.rs and code lines of the .mec files with 1-3 token-level "
         "mutations (delete / duplicate / swap / insert bracket or quote / truncate); (3) .mec files of the repository whole (quick: the ones "
-        "up to 2.5 kB; thorough: all) and prefixes cut at grapheme-ish boundaries and at code-point boundaries inside a combining sequence "
-        "(quick: ~60 prefixes of each of 6 files, capped at 2.5 kB; thorough: 80 prefixes of every file, capped at 8 kB); (4) valid programs "
+        "up to 2.5 kB; thorough: up to 20 kB) and prefixes cut at grapheme-ish boundaries and at code-point boundaries inside a combining sequence "
+        "(quick: ~60 prefixes of each of 6 files, capped at 2.5 kB; thorough: 40 prefixes of every file, capped at 4 kB); (4) valid programs "
         "with combining characters / emoji / box-drawing spliced in; (5) nesting-depth ladders and stray mika brackets (known findings). "
         "non-trivial = distinct text judged ok (tree or in-range report)")
 ASSUMPTIONS = [
@@ -312,7 +312,7 @@ def generate(tier, rng):
             add(emit(splice_unicode(s, rng), stream="unicode-splice"))
 
     # (3) .mec files: whole and prefixes
-    cap_whole = 2500 if quick else 10 ** 9
+    cap_whole = 2500 if quick else 20000
     whole = [p for p in files if os.path.getsize(p) <= cap_whole]
     # quick: a deterministic sample of the small files, thorough: all
     if quick:
@@ -329,7 +329,7 @@ def generate(tier, rng):
         t = read_text(p)
         if not t:
             continue
-        npre, cap = (60, 2500) if quick else (80, 8000)
+        npre, cap = (60, 2500) if quick else (40, 4000)
         for k in prefix_positions(t, rng, npre, cap):
             add(emit(t[:k], stream="mec-prefix", file=os.path.relpath(p, REPO)))
 
